@@ -3,6 +3,7 @@
 mod oracle;
 mod witnesses;
 mod search;
+mod diff;
 
 fn main() {
     let args: Vec<String> = std::env::args().collect();
@@ -36,6 +37,14 @@ fn main() {
             let (n, hit) = search::search_named(&name);
             println!("CASES {n}");
             if let Some(w) = hit { println!("WITNESS {w}"); }
+        }
+        Some("diff") => {
+            let from: u64 = args.get(2).and_then(|s| s.parse().ok()).unwrap_or(0);
+            let n: u64 = args.get(3).and_then(|s| s.parse().ok()).unwrap_or(20000);
+            match diff::first_difference(from, n) {
+                Some((seed, a, b)) => { println!("DIFFERENT seed={seed}"); println!("pinned : {a}"); println!("current: {b}"); }
+                None => println!("SAME on {n} scenarios"),
+            }
         }
         Some("selftest") => {
             let hits = search::selftest();
